@@ -426,7 +426,9 @@ fn c15(seed: u64, case: u64, out: &Out) {
     let scenario = case % 3; // 0: N sleepers, 1: N tasks parked in a hooked socket read with a timeout, 2: late arrival while a long sleeper is parked
     let n = *rng.pick(&[8usize, 16, 32]);
     let d_ms: u64 = *rng.pick(&[100u64, 200]);
-    out.begin(case, jobj! {"scenario" => ["N tasks in hooked usleep/nanosleep + one computing sibling", "N tasks parked in a hooked recv (SO_RCVTIMEO) + one computing sibling", "a task submitted while the only worker is parked in a long hooked sleep"][scenario as usize],
+    // which hooked call the N tasks block in (scenario 0: timed waits, scenario 1: socket calls that run into the socket's timeout)
+    let kind = if scenario == 0 { ["usleep/nanosleep", "poll", "select", "pthread_cond_timedwait", "mixed timed waits"][(case / 3 % 5) as usize] } else if scenario == 1 { ["recv on an empty socket", "send on a full socket", "accept on an idle listener"][(case / 3 % 3) as usize] } else { "usleep" };
+    out.begin(case, jobj! {"blocking_call" => kind, "scenario" => ["N tasks in hooked usleep/nanosleep + one computing sibling", "N tasks parked in a hooked recv (SO_RCVTIMEO) + one computing sibling", "a task submitted while the only worker is parked in a long hooked sleep"][scenario as usize],
         "tasks" => n, "each_blocks_ms" => d_ms});
     init(1, n + 8, 0, 0);
     let done = Arc::new(AtomicUsize::new(0));
@@ -481,27 +483,94 @@ fn c15(seed: u64, case: u64, out: &Out) {
         for i in 0..n {
             let d2 = done.clone();
             if scenario == 0 {
-                let use_nano = i % 2 == 1;
+                let which = match kind {
+                    "usleep/nanosleep" => i % 2,
+                    "poll" => 2,
+                    "select" => 3,
+                    "pthread_cond_timedwait" => 4,
+                    _ => i % 5,
+                };
                 hs_all.push(EventLoops::submit_task(None, move |_| {
-                    if use_nano {
-                        let rq = libc::timespec { tv_sec: (d_ms / 1000) as libc::time_t, tv_nsec: ((d_ms % 1000) * 1_000_000) as libc::c_long };
-                        let _ = oc::nanosleep(None, &raw const rq, std::ptr::null_mut());
-                    } else {
-                        let _ = oc::usleep(None, (d_ms * 1000) as u32);
+                    match which {
+                        0 => {
+                            let _ = oc::usleep(None, (d_ms * 1000) as u32);
+                        }
+                        1 => {
+                            let rq = libc::timespec { tv_sec: (d_ms / 1000) as libc::time_t, tv_nsec: ((d_ms % 1000) * 1_000_000) as libc::c_long };
+                            let _ = oc::nanosleep(None, &raw const rq, std::ptr::null_mut());
+                        }
+                        2 => {
+                            let _ = oc::poll(None, std::ptr::null_mut(), 0, d_ms as libc::c_int);
+                        }
+                        3 => {
+                            let mut t = libc::timeval { tv_sec: (d_ms / 1000) as libc::time_t, tv_usec: ((d_ms % 1000) * 1000) as libc::suseconds_t };
+                            let _ = oc::select(None, 0, std::ptr::null_mut(), std::ptr::null_mut(), std::ptr::null_mut(), &raw mut t);
+                        }
+                        _ => unsafe {
+                            let mut m: libc::pthread_mutex_t = libc::PTHREAD_MUTEX_INITIALIZER;
+                            let mut c: libc::pthread_cond_t = libc::PTHREAD_COND_INITIALIZER;
+                            libc::pthread_mutex_lock(&raw mut m);
+                            let mut nowts: libc::timespec = std::mem::zeroed();
+                            libc::clock_gettime(libc::CLOCK_REALTIME, &raw mut nowts);
+                            let abs = nowts.tv_sec as u64 * 1_000_000_000 + nowts.tv_nsec as u64 + d_ms * 1_000_000;
+                            let ts = libc::timespec { tv_sec: (abs / 1_000_000_000) as libc::time_t, tv_nsec: (abs % 1_000_000_000) as libc::c_long };
+                            let _ = oc::pthread_cond_timedwait(None, &raw mut c, &raw mut m, &raw const ts);
+                            libc::pthread_mutex_unlock(&raw mut m);
+                        },
                     }
                     d2.fetch_add(1, Ordering::SeqCst);
                     Some(i)
                 }, None, None));
             } else {
+                let tv = libc::timeval { tv_sec: (d_ms / 1000) as libc::time_t, tv_usec: ((d_ms % 1000) * 1000) as libc::suseconds_t };
+                let tvlen = size_of::<libc::timeval>() as libc::socklen_t;
+                if kind == "accept on an idle listener" {
+                    // a listening unix socket nobody connects to
+                    let l = unsafe { libc::socket(libc::AF_UNIX, libc::SOCK_STREAM, 0) };
+                    let path = format!("/tmp/verif-c15-{}-{case}-{i}.sock", std::process::id());
+                    let _ = std::fs::remove_file(&path);
+                    let mut addr: libc::sockaddr_un = unsafe { std::mem::zeroed() };
+                    addr.sun_family = libc::AF_UNIX as libc::sa_family_t;
+                    for (k, b) in path.bytes().enumerate() {
+                        addr.sun_path[k] = b as libc::c_char;
+                    }
+                    assert_eq!(0, unsafe { libc::bind(l, (&raw const addr).cast(), size_of::<libc::sockaddr_un>() as libc::socklen_t) });
+                    assert_eq!(0, unsafe { libc::listen(l, 4) });
+                    let _ = std::fs::remove_file(&path);
+                    socks.push([l, -1]);
+                    hs_all.push(EventLoops::submit_task(None, move |_| {
+                        let _ = oc::setsockopt(None, l, libc::SOL_SOCKET, libc::SO_RCVTIMEO, std::ptr::from_ref(&tv).cast(), tvlen);
+                        let _ = oc::accept(None, l, std::ptr::null_mut(), std::ptr::null_mut());
+                        d2.fetch_add(1, Ordering::SeqCst);
+                        Some(i)
+                    }, None, None));
+                    continue;
+                }
                 let mut sv = [0; 2];
                 assert_eq!(0, unsafe { libc::socketpair(libc::AF_UNIX, libc::SOCK_STREAM, 0, sv.as_mut_ptr()) });
                 socks.push(sv);
                 let fd = sv[0];
+                let sending = kind == "send on a full socket";
+                if sending {
+                    // fill the send buffer beforehand so that the hooked send has to wait for room that never comes
+                    unsafe {
+                        let fl = libc::fcntl(fd, libc::F_GETFL);
+                        libc::fcntl(fd, libc::F_SETFL, fl | libc::O_NONBLOCK);
+                        let junk = [3u8; 65536];
+                        while libc::write(fd, junk.as_ptr().cast(), junk.len()) > 0 {}
+                        libc::fcntl(fd, libc::F_SETFL, fl);
+                    }
+                }
                 hs_all.push(EventLoops::submit_task(None, move |_| {
-                    let tv = libc::timeval { tv_sec: (d_ms / 1000) as libc::time_t, tv_usec: ((d_ms % 1000) * 1000) as libc::suseconds_t };
-                    let _ = oc::setsockopt(None, fd, libc::SOL_SOCKET, libc::SO_RCVTIMEO, std::ptr::from_ref(&tv).cast(), size_of::<libc::timeval>() as libc::socklen_t);
-                    let mut b = [0u8; 8];
-                    let _ = oc::recv(None, fd, b.as_mut_ptr().cast(), 8, 0);
+                    if sending {
+                        let _ = oc::setsockopt(None, fd, libc::SOL_SOCKET, libc::SO_SNDTIMEO, std::ptr::from_ref(&tv).cast(), tvlen);
+                        let b = [5u8; 4096];
+                        let _ = oc::send(None, fd, b.as_ptr().cast(), b.len(), 0);
+                    } else {
+                        let _ = oc::setsockopt(None, fd, libc::SOL_SOCKET, libc::SO_RCVTIMEO, std::ptr::from_ref(&tv).cast(), tvlen);
+                        let mut b = [0u8; 8];
+                        let _ = oc::recv(None, fd, b.as_mut_ptr().cast(), 8, 0);
+                    }
                     d2.fetch_add(1, Ordering::SeqCst);
                     Some(i)
                 }, None, None));
@@ -529,12 +598,14 @@ fn c15(seed: u64, case: u64, out: &Out) {
         std::mem::forget(hs);
         std::mem::forget(hs_all);
         for sv in socks {
-            unsafe {
-                libc::close(sv[1]);
+            if sv[1] >= 0 {
+                unsafe {
+                    libc::close(sv[1]);
+                }
             }
         }
     }
-    let fp = format!("{scenario}|{n}|{d_ms}");
+    let fp = format!("{scenario}|{kind}|{n}|{d_ms}");
     if viol.is_some() && wl_core::overloaded() {
         out.end(case, Verdict::Inconclusive, "machine-overloaded-during-timing-case", false, &fp, obs, &viol.map(|v| v.1).unwrap_or_default());
         return;
